@@ -36,6 +36,9 @@ def _run_tree(args):
     by_file = {}
     for fn, l, c in rep.missing:
         by_file.setdefault(os.path.basename(fn), []).append((l, c))
+    unusable_by_file = {}
+    for fn, l, c in rep.unusable:
+        unusable_by_file.setdefault(os.path.basename(fn), []).append((l, c))
     ed = cli.run_breadlog(os.path.join(proj, "Breadlog.yaml"), check=False, cwd=work, tmpdir=tmp, timeout=600)
     if ed.panicked or ed.timed_out:
         return [{"class": "cli-crash", "detail": "edit run crashed: %r %s" % (ed, ed.stderr[-300:]), "label": None, "code": ""}]
@@ -50,6 +53,11 @@ def _run_tree(args):
         if want_pos != got_pos:
             fails.append({"class": "check-report", "detail": "in-process missing entries at %r, --check reported %r" % (want_pos, got_pos),
                           "label": label, "code": code})
+            continue
+        want_un = sorted((e[1], e[2]) for e in ents[i] if e[3] is None and not e[5])
+        if want_un != sorted(unusable_by_file.get(n, [])):
+            fails.append({"class": "check-unusable-report", "detail": "in-process unusable entries at %r, --check warned about %r" % (
+                want_un, sorted(unusable_by_file.get(n, []))), "label": label, "code": code})
             continue
         new = open(os.path.join(proj, "src", n), "rb").read()
         strip = cli.token_strip(b, new)
